@@ -9,7 +9,7 @@
 // /include (load); (6) models built and edited through the API (new(), T::new(), push, retain, field edits).
 // Oracle: M0 = load(text) or the built model, T1 = write(M0); for c = 1..k, k in 1..4: load(Tc) succeeds, equals M0,
 // write(..) == T1 byte for byte. Rejected inputs are outside the property and skipped.
-// Carve-outs are marked CANDIDATE-FINDING C01-1 .. C01-9 below and described in drivers/notes/C01.md.
+// Carve-outs are marked CANDIDATE-FINDING (C01-3, -5e, -6, -7, -9) below and described in drivers/notes/C01.md.
 #![allow(dead_code, unused_variables, unused_mut, clippy::all)]
 // ======================================================================================
 // COMMON PART (identical in C01.rs / C02.rs / C05.rs): PRNG, grammar table, document
@@ -2382,7 +2382,14 @@ const FIXED: &[&str] = &[
     "ASAP2_VERSION\t1\t71\n/begin\tPROJECT\tp\t\"\"\n\t/begin MODULE m \"\"\n\t/end MODULE\n/end PROJECT\n\n\n",
     // IF_DATA without A2ML, deep nesting, wide numbers
     "ASAP2_VERSION 1 71 /begin PROJECT p \"\" /begin MODULE m \"\"\n/begin IF_DATA V 0xFFFFFFFFFFFFFFFF 18446744073709551615 -2147483649 4294967297 0.12345678901234567\n /begin A 1 /begin B \"s\" /begin C x /end C y 2 /end B /end A tail 3 \"t\"\n/end IF_DATA\n/begin IF_DATA\n/end IF_DATA /begin IF_DATA 1 2 3 /end IF_DATA /end MODULE /end PROJECT",
+    // multi-line block comments: top level, in front of a block, between elements, last child of a block in front of its /end,
+    // behind /end PROJECT; with blank lines inside, directly followed by the next token on the same line
+    "/* top\n level\n comment */\nASAP2_VERSION 1 71\n/* between version\n\n and project */\n/begin PROJECT p \"\"\n  /* in front of\n a block */\n  /begin MODULE m \"\"\n    /* a\n b\n c */\n    /begin MEASUREMENT a \"\" UBYTE c 0 0 0 255\n      ECU_ADDRESS 0x10\n      /* last child\n of the block */\n    /end MEASUREMENT\n    /* between\n elements */ /begin MEASUREMENT b \"\" UBYTE c 0 0 0 255 /* only\nchild */ /end MEASUREMENT /* same line\n as the end */\n\n\n    /* two */ /* in\n a row */\n    /begin UNIT u \"\" \"x\" DERIVED /end UNIT\n    /* last\n\n child of MODULE */\n  /end MODULE\n  /* last child\n of PROJECT */\n/end PROJECT\n/* behind\n the end */",
 ];
+
+// C01-8: literals that overflow f64; rejected at load since /repo a7b71aa (a rejected text is outside the property, an accepted
+// one must be stable like every other text)
+const OVERFLOW: &[&str] = &["1e400", "-1e400", "1E+309", "1.8e308", "-1.7976931348623159e308", "123456789e9999"];
 
 #[test]
 fn vf_driver_c01() {
@@ -2402,6 +2409,16 @@ fn vf_driver_c01() {
         text_case(&mut rep, &format!("fixed{i}-crlf"), crlf, false, 3, false, true, true);
     }
 
+    for (i, lit) in OVERFLOW.iter().enumerate() {
+        let in_field = format!("ASAP2_VERSION 1 71\n/begin PROJECT p \"\"\n/begin MODULE m \"\"\n/begin MEASUREMENT a \"\" UBYTE c 0 0 0 {lit}\n/end MEASUREMENT\n/end MODULE\n/end PROJECT\n");
+        let in_ifdata = format!("ASAP2_VERSION 1 71\n/begin PROJECT p \"\"\n/begin MODULE m \"\"\n/begin IF_DATA V 1 {lit} /begin B {lit} /end B\n/end IF_DATA\n/end MODULE\n/end PROJECT\n");
+        for (what, text) in [("field", in_field), ("ifdata", in_ifdata)] {
+            for strict in [true, false] {
+                text_case(&mut rep, &format!("overflow{i}-{what}"), text.clone(), strict, 3, false, true, true);
+            }
+        }
+    }
+
     // generated accepted texts
     let n = if thorough { 40000 } else { 2500 };
     let mut accepted = 0;
@@ -2414,8 +2431,9 @@ fn vf_driver_c01() {
         opts.wide_unknown = rng.chance(15);
         // CANDIDATE-FINDING C01-9: a float literal with an integral value inside IF_DATA that no A2ML describes (1e3, 5.)
         // is loaded as Double, written as "1000" and loaded again as Long: load(write(M)) != M (the text is stable).
-        // CANDIDATE-FINDING C01-8: a float literal that overflows f64 (1e400) is loaded as infinity and written as "inf",
-        // which does not load. Neither kind of literal is generated for this driver.
+        // Such literals are not generated for this driver.
+        // C01-8 (a float literal that overflows f64, 1e400, was loaded as infinity and written as "inf"): repaired in /repo a7b71aa
+        // (rejected at load): checked again by the fixed cases OVERFLOW below
         opts.integral_unknown_floats = false;
         let canonical = rng.chance(15);
         opts.canon = canonical && rng.chance(70);
@@ -2438,10 +2456,8 @@ fn vf_driver_c01() {
         // C01-4 (reordered RECORD_LAYOUT item written behind a `//` comment): repaired in /repo 6bcb276: generated and checked again
         lay.kept_line_comments = true;
         let r = render(&mut rng, &doc.toks, &lay);
-        // CANDIDATE-FINDING C01-1: a block comment that spans lines and stands between block-level elements makes the
-        // written text grow on every cycle (the element behind it is pushed down by the comment's inner line count each
-        // time). The model level part of the property is still checked for such inputs, the byte-for-byte part is not.
-        let check_text = r.multiline_kept == 0;
+        // C01-1 (a kept block comment that spans lines made the written text grow on every cycle): repaired in /repo 0e2c007: generated and checked again
+        let check_text = true;
         let k = 1 + (i % 4);
         let strict = rng.chance(50);
         let via_file = i % 10 == 3;
